@@ -118,6 +118,7 @@ func lmRun(d *lmDesc, c Case) (res Result) {
 		switch name {
 		case "tag":
 			res.Tags = append(res.Tags, a[0])
+		case "G": // table facts for the model only (abstract lookup tables of the layer)
 		case "dec":
 			data := lnUnhex(a[0])
 			r := d.dec(d.fresh(), data)
